@@ -161,7 +161,7 @@ def run_c15(tier, seed):
     v = vlib.Verdict("C15", tier, seed, level="exploration")
     work = vlib.scratch_dir("C15")
     binary = vlib.build_harness("client", "plain")
-    res = vlib.run_resumable(binary, ["--prop", "c15", "--seed", str(seed), "--cases", str(6 if tier == "quick" else 200)], 12,
+    res = vlib.run_resumable(binary, ["--prop", "c15", "--seed", str(seed), "--cases", str(9 if tier == "quick" else 225)], 12,
                              timeout=600 if tier == "quick" else 7200, work=work)
     counters, distinct, samples, stats = vlib.collect_runs(v, res, only_prefix="c15:")
     v.assumptions += ["the server is a scripted raw TCP server written in the harness; every request/response carries a unique tag",
